@@ -37,6 +37,10 @@ VARIANTS = {
     "qf": ("qf", 4, _id, False),
     "qf.dflt": ("qf", 3, lambda a: a + [1], False),
 }
+# the callers that read Rational::flags, run before anything has set it: the library's initial value (documented: Reduce)
+VARIANTS["ctor.init"] = ("ctor", 4, lambda a: a[:3] + [1] + a[3:], False)
+VARIANTS["qfk.init"] = ("qfk", 4, lambda a: a[:3] + [1] + a[3:], False)
+VARIANTS["qf.init"] = ("qf", 3, lambda a: a[:2] + [1] + a[2:], False)
 # an output being the same object as an input (Rational::ratrecon / RationalReconstruction x3): same values expected
 for _j in range(6):
     VARIANTS["ratrecon.al%d" % _j] = ("ratrecon", 5, lambda a: a[:4], True)
@@ -203,6 +207,60 @@ def branch_class(f, m, k):
     return "second-ok" if math.gcd(r0 - q * r1, t0 - q * t1) == 1 else "second-rejected"
 
 
+def py_ratrecon(f, m, k):
+    """reference run of Rational::ratrecon(.., forcereduce = true), used ONLY to construct boundary inputs (never to judge)"""
+    r0, t0, r1, t1 = m, 0, (f % m if f < 0 else f), 1
+    while r1 >= k:
+        q = r0 // r1
+        r0, r1 = r1, r0 - q * r1
+        t0, t1 = t1, t0 - q * t1
+    n, d = (-r1, -t1) if t1 < 0 else (r1, t1)
+    if math.gcd(n, d) == 1: return 1, n, d
+    if n == 0: return (1 if f % m == 0 else 0), n, d
+    q = (r0 + r1 - k) // r1
+    r0 -= q * r1; t0 -= q * t1
+    n, d = (-r0, -t0) if t0 < 0 else (r0, t0)
+    return (1 if math.gcd(n, d) == 1 else 0), n, d
+
+
+def rr6_boundary_cases(tier):
+    """deterministic block 3: RationalReconstruction(a,b,x,m,a_bound,b_bound) with b_bound = den - 1, den, den + 1 where den is the
+    denominator the reconstruction finds (the test `b <= b_bound` at equality), and a_bound = |num|, |num| + 1"""
+    cases = []
+    for mi, m in enumerate(GRID_MODULI):
+        if tier == "quick" and m.bit_length() > 64: continue
+        s = isqrt(m)
+        for fi, f in enumerate(sorted(set(x % m for x in (2, 3, s, s + 1, m - 1, m // 2, m // 3, m // 2 + 1, 3 * (m // 4), 51, 75, 246, (m * 5) // 7)))):
+            for ab0 in (max(1, s), max(1, s // 2)):
+                k = max(f // max(1, s), ab0)
+                if not 1 <= k <= m: continue
+                ok, n, d = py_ratrecon(f, m, k)
+                if not ok or d < 1: continue
+                for bb in (d - 1, d, d + 1):
+                    if bb < 1: continue
+                    for ab in (ab0, abs(n), abs(n) + 1):
+                        if ab < 1: continue
+                        for v in ("rr6.static", "rr6.zring", "rr6.al%d" % ((fi + mi) % 8)):
+                            for x in ((f,) if ".al" in v else (f, f + m)):
+                                cases.append((v, "rr6", [x, m, ab, bb], [x, m, ab, bb], None, "rr6-boundary", "grid"))
+    return cases
+
+
+def init_flag_cases():
+    """deterministic block 0 (must be the first lines the harness sees): Rational(f,m,k,recurs) and both QField<Rational>::ratrecon
+    forms before anything has called SetReduce / SetNoReduce, on inputs whose first candidate is not coprime"""
+    cases = []
+    for f, m, k, c in grid_triples():
+        if c in ("first", "num0-ok") or m > (1 << 16): continue
+        for x in (f, f - m, f + m):
+            for rc in (0, 1):
+                for v in ("ctor.init", "qfk.init") + (("qf.init",) if k == isqrt(m) else ()):
+                    op, nargs, mp, _ = VARIANTS[v]
+                    ia = [x, m, rc] if v == "qf.init" else [x, m, k, rc]
+                    cases.append((v, op, ia, mp(list(ia)), None, "initial-flags-" + c, "grid"))
+    return cases
+
+
 # moduli of the deterministic blocks (the same on every run and for every seed): tiny, the examples of tests/test-ratrecon.C,
 # prime, prime power, power of two at the limb boundary, smooth multi-limb, multi-limb prime
 GRID_MODULI = [8, 12, 250, 1000, 1009, 3 ** 9, 1 << 16, 2 * 3 * 5 * 7 * 11 * 13 * 17 * 19, 1 << 64, (1 << 89) - 1,
@@ -237,7 +295,7 @@ def grid_cases(tier):
     triples (all of them in the thorough tier); the bounds k = m + 1 and 2m (outside the domain) go to ratrecon only"""
     cases = []
     tr = grid_triples()
-    vs = sorted(VARIANTS)
+    vs = [v for v in sorted(VARIANTS) if not v.endswith(".init")]
     for idx, (f, m, k, c) in enumerate(tr):
         reps = [f - 2 * m, f - m, f, f + m, f + 2 * m]
         for vi, v in enumerate(vs):
@@ -288,7 +346,7 @@ def envelope_cases(tier):
     reconstructed exactly) and e + 1 (outside: soundness only), representatives f - m, f, f + m, through EVERY entry point that
     can be given the default bound sqrt m (Reduce / forcereduce on and off, recurs on and off)"""
     cases = []
-    vs = sorted(VARIANTS)
+    vs = [v for v in sorted(VARIANTS) if not v.endswith(".init")]
     for m in GRID_MODULI + [10007 * 10009, (1 << 127) - 1]:
         s = isqrt(m); e = s // 4
         if e < 2: continue
@@ -419,7 +477,7 @@ def parse_extra(line):
 def gen_cases(rng, tier, chk):
     n = 9000 if tier == "quick" else 250000
     cases = []   # (variant, op, implargs, modelargs, frac, fclass, mclass)
-    vs = sorted(VARIANTS)
+    vs = [v for v in sorted(VARIANTS) if not v.endswith(".init")]
     for i in range(n):
         mclass, m = gen_modulus(rng)
         if tier == "quick" and m.bit_length() > 200 and rng.chance(1, 2):
@@ -497,7 +555,8 @@ def gen_cases(rng, tier, chk):
     # deterministic blocks (independent of the seed)
     cases += grid_cases(tier)
     cases += envelope_cases(tier)
-    return cases
+    cases += rr6_boundary_cases(tier)
+    return init_flag_cases() + cases           # the initial-flags block first: nothing has touched Rational::flags yet
 
 
 # ------------------------------------------------------------------ polynomials over Z/p (python oracle, independent of the model)
@@ -692,6 +751,7 @@ def cases_from_replay(path):
             nP = a[3]
             P, M = a[4:4 + nP], a[5 + nP:]
             out.append((v, poly_model_op(v), a, a, None, "replay", "p=%d" % a[0], (a[0], a[1], a[2], P, M)))
+    out.sort(key=lambda c: not c[0].endswith(".init"))      # the initial-flags forms must be the first lines of the harness
     return out
 
 
@@ -889,6 +949,9 @@ def main(tier, replay=None):
                 else:
                     st("branch/first-candidate")
                 if nit == 0: st("branch/zero-iterations")
+        if op == "rr6" and len(ma) == 4:
+            if out[2] == ma[3]: st("rr6/den==b_bound")
+            elif out[2] == ma[3] + 1: st("rr6/den==b_bound+1")
         # specification
         for klass, msg in spec_check(op, ma, out, parse_extra(iout[i])):
             chk.fail_input("ratrecon:" + VARIANTS[v][0], klass, case, msg, iout[i], msg)
